@@ -26,6 +26,9 @@ pub enum Op {
     KConsume(u8),
     /// kernel: post up to k completions (bounded by free CQ slots)
     KPost(u8),
+    /// kernel: the flags word of the submission ring becomes this value (bit 0 NEED_WAKEUP, bit 1
+    /// CQ_OVERFLOW, bit 2 TASKRUN - the kernel sets them independently of each other)
+    KFlags(u8),
 }
 
 #[derive(Debug, Clone, Serialize, Deserialize)]
@@ -131,8 +134,20 @@ pub fn check_ring(c: &RingCase) -> CaseResult {
     let cq_slot_size = CQE_SIZE << cq_shift;
     let res_of = |seq: u64| -> i32 { (seq.wrapping_mul(2_654_435_761) as u32 >> 1) as i32 };
 
+    let mut kflags_model = 0u32;
+    let mut flag_mixes = false;
     for (step, op) in c.ops.iter().enumerate() {
+        // the application's view of "the poller sleeps" is bit 0 of the flags word, whatever else is set
+        let nw = no_panic("IoUring::needs_wakeup", || ring.needs_wakeup())?;
+        ensure!(nw == (kflags_model & 1 != 0), "needs_wakeup|wrong-answer", "step {step}: the kernel's flags word is {kflags_model:#x} (bit 0 = the submission thread sleeps and must be woken), needs_wakeup() = {nw}");
         match *op {
+            Op::KFlags(v) => {
+                kflags_model = u32::from(v & 7);
+                sim.sq_kflags.store(kflags_model, Ordering::SeqCst);
+                if kflags_model & 1 != 0 && kflags_model != 1 {
+                    flag_mixes = true;
+                }
+            }
             Op::Get => {
                 let got = no_panic("IoUring::get_next_sqe_slot", || ring.get_next_sqe_slot())?;
                 let in_flight = m_obtained - m_consumed;
@@ -250,6 +265,7 @@ pub fn check_ring(c: &RingCase) -> CaseResult {
     rep.class_if(wrapped, "counter-crossed-2^32");
     rep.class_if(half, "counter-crossed-2^31");
     rep.class_if(cq_was_full, "cq-full");
+    rep.class_if(flag_mixes, "need-wakeup-together-with-other-flag-bits");
     rep.class_if(sq_was_full, "sq-full-none");
     rep.class_if(c_reaped > 0, "reaped");
     rep.class_if(m_consumed > u64::from(sq_entries), "sq-slots-cycled");
@@ -278,6 +294,7 @@ fn ops() -> impl Strategy<Value = Vec<Op>> {
         4 => Just(Op::Reap),
         3 => (1u8..=8).prop_map(Op::KConsume),
         3 => (1u8..=9).prop_map(Op::KPost),
+        1 => (0u8..8).prop_map(Op::KFlags),
     ];
     prop::collection::vec(op, 0..200)
 }
